@@ -1159,8 +1159,29 @@ func ruleC10sym(c *Ctx) []*report.Result {
 			r.Check(leq(pre, symInt{rd.idx.base, rd.idx.off + 1}, symInt{base: "LEN"}), "escape.InternalEscapeBytes / read within bounds @"+rd.where, rd.where, fmt.Sprintf("B[%s] is read without %s < len(B) having been established before on that path: an index out of range inside printing", rd.idx, rd.idx))
 		}
 	}
+	// K <= len(B) is an invariant of the loop once the steps below are verified
+	// (K starts at 0; a marker step sets it to I+L under a true I+L <= len(B);
+	// a line step to the end of a run that stops at len(B); a plain step leaves
+	// it): a path whose conditions say len(B) < K, with K the loop-carried
+	// value itself, cannot be taken — a defensive clamp is dead code, not a
+	// second way to finish.
+	contradictsInv := func(p symPath) bool {
+		for _, c := range p.conds {
+			if c.cmpOp == "<" && c.pol && c.a.base == "LEN" && c.b.base == "K" && c.a.off >= c.b.off {
+				return true // LEN+x < K+y with x >= y
+			}
+			if c.cmpOp == "<=" && !c.pol && c.a.base == "K" && c.b.base == "LEN" && c.a.off <= c.b.off {
+				return true // !(K+x <= LEN+y) with x <= y
+			}
+		}
+		return false
+	}
 	nBack, nExit := 0, 0
 	for _, p := range res.paths {
+		if (p.kind == "back" || p.kind == "exit") && contradictsInv(p) {
+			r.Ok("infeasible path (contradicts K <= len(B)) @" + p.where)
+			continue
+		}
 		var conds []string
 		for _, c := range p.conds {
 			if c.pol {
